@@ -449,7 +449,7 @@ func c18ReadSub() *engine.Sub {
 	}
 	return &engine.Sub{
 		Name: "readers",
-		Rule: "every streaming decoder on every matching artefact (sealed and DAG-JSON tokens, containers; plus tokens and containers of 1 MiB and more, for which only the fault-free chunkings are compared): (1) chunk sizes {1,2,3,7,whole} x EOF {separate, with data}, and the stream cut into two pieces after k bytes for every k (and three: k, 1, rest) - one artefact carries characters of 1 to 4 bytes at several alignments -: result equals the buffered API's; (2) positional faults: an injected error after k delivered bytes for every k in [0,len] (returned alone, and returned together with the bytes up to k) and an early EOF for every k in [0,len) must yield an error (a CAR cut exactly at a block boundary yields exactly the blocks before it); one Read answering (0, nil) - nothing happened, call again - after k delivered bytes for every k, with chunks {whole, 1, 7}, bare and behind the caller's own *bufio.Reader, must not change the result; one Read failing after k bytes with an error that calls itself temporary (EAGAIN, EINTR, deadline exceeded, a net-style timeout, ErrNoProgress, ErrShortBuffer), the reader being able to go on afterwards, must yield an error; (3) E3: deviation-bounded DFS over per-Read answers {all, 1 byte, half, last-bytes-with-EOF, early EOF, error, bytes-together-with-error, (0, nil) (at most twice, never twice in a row; explored in a second pass of the thorough tier with one deviation less: an empty read combined with one other deviation)}: fault-free schedules agree with the buffered API, faulty ones return an error; non-trivial = executions with at least one deviation or fault",
+		Rule: "every streaming decoder on every matching artefact (sealed and DAG-JSON tokens, containers; plus tokens and containers of 1 MiB and more, for which only the fault-free chunkings are compared): (1) chunk sizes {1,2,3,7,whole} x EOF {separate, with data}, and the stream cut into two pieces after k bytes for every k (and three: k, 1, rest) - one artefact carries characters of 1 to 4 bytes at several alignments -: result equals the buffered API's; (2) positional faults: an injected error after k delivered bytes for every k in [0,len] (returned alone, and returned together with the bytes up to k) and an early EOF for every k in [0,len) must yield an error (a CAR cut exactly at a block boundary yields exactly the blocks before it); one Read answering (0, nil) - nothing happened, call again - after k delivered bytes for every k, with chunks {whole, 1, 7}, bare and behind the caller's own *bufio.Reader, must not change the result; one Read failing after k bytes with an error that calls itself temporary (EAGAIN, EINTR, deadline exceeded, a net-style timeout, ErrNoProgress, ErrShortBuffer), the reader being able to go on afterwards, must yield an error; the same errors returned by EVERY Read from offset k on must yield an error too - the call returns (a caller still reading after 10000 consecutive failures is charged with not terminating); (3) E3: deviation-bounded DFS over per-Read answers {all, 1 byte, half, last-bytes-with-EOF, early EOF, error, bytes-together-with-error, (0, nil) (at most twice, never twice in a row; explored in a second pass of the thorough tier with one deviation less: an empty read combined with one other deviation)}: fault-free schedules agree with the buffered API, faulty ones return an error; non-trivial = executions with at least one deviation or fault",
 		Bound: func(t string) string {
 			return fmt.Sprintf("E3 deviation bound %d (per artefact x API), all offsets for positional faults, 10 chunkings", tierN(t, 2, 3))
 		},
@@ -603,6 +603,34 @@ func c18ReadSub() *engine.Sub {
 						default:
 							ctx.Outcome("fault-swallowed")
 							ctx.Failf(rc, "fault-swallowed/temporary-error/"+tag, "%s on %s returns a result although one Read, after %d of %d bytes, failed with %q", api.Name, a.Name, k, len(a.Data), e)
+						}
+						// the same error for good: every Read from offset k on fails with it (a deadline that has passed stays passed).
+						// The call returns - with an error; a caller that keeps asking is stopped after 10000 answers
+						sr := &engine.PosReader{Data: a.Data, FailAt: k, Mode: "error", StickyErr: e, MaxFailures: 10000}
+						var serr error
+						spun := false
+						func() {
+							defer func() {
+								if r := recover(); r != nil {
+									if r == engine.ErrSpinning {
+										spun = true
+										return
+									}
+									panic(r)
+								}
+							}()
+							_, serr = api.Stream(sr)
+						}()
+						ctx.Eval(1)
+						switch {
+						case spun:
+							ctx.Outcome("spins")
+							ctx.Failf(rc, "does-not-terminate/persistent-temporary-error/"+tag, "%s on %s keeps reading after 10000 consecutive failures with %q from offset %d on: it never returns", api.Name, a.Name, e, k)
+						case serr == nil && sr.Hit:
+							ctx.Outcome("fault-swallowed")
+							ctx.Failf(rc, "fault-swallowed/persistent-temporary-error/"+tag, "%s on %s returns a result although every Read from offset %d on failed with %q", api.Name, a.Name, k, e)
+						default:
+							ctx.Outcome("fault-reported")
 						}
 					}
 				}
